@@ -153,16 +153,22 @@ func Ready(rw io.ReadWriter, o Opts) (*xmpp.Session, error) {
 	if o.S2S {
 		st |= xmpp.S2S
 	}
+	// The context of the constructors only governs the negotiation ("After
+	// stream negotiation if the context is canceled it has no effect"), and
+	// applications release it as soon as the constructor returns (defer cancel()
+	// around the connect step): so does every session of the harness.
+	ctx, cancel := context.WithCancel(context.Background())
+	defer cancel()
 	if o.Default {
 		neg := xmpp.NewNegotiator(func(*xmpp.Session, *xmpp.StreamConfig) xmpp.StreamConfig { return xmpp.StreamConfig{} })
-		return xmpp.NewSession(context.Background(), remote, local, rw, st, neg)
+		return xmpp.NewSession(ctx, remote, local, rw, st, neg)
 	}
 	if o.Received {
 		// ReceiveSession does not take addresses: they are learnt from the header.
 		// Use NewSession with the Received bit so that addresses can be fixed.
-		return xmpp.NewSession(context.Background(), local, remote, rw, st|xmpp.Received, NopNegotiator(o))
+		return xmpp.NewSession(ctx, local, remote, rw, st|xmpp.Received, NopNegotiator(o))
 	}
-	return xmpp.NewSession(context.Background(), remote, local, rw, st, NopNegotiator(o))
+	return xmpp.NewSession(ctx, remote, local, rw, st, NopNegotiator(o))
 }
 
 // Pair is a Ready library session joined to a raw harness end.
